@@ -17,7 +17,13 @@
         "tevo" : RealTimeEvolution.run_algorithm: engine.run ; measurement ; checkpoint
      checkpoint event                            : [measurement (measure_at_algorithm_checkpoints),
                                                    priority 0] ; save_at_checkpoint (priority -100)
-     save_results                                : stat out ; [stat bak ; [unlink bak] ; rename out
+     save_results (Protocol "replace", the code) : open(bak, trunc) ; write+ ; close ; rename bak -> out
+                                                   (os.replace: `out` is replaced atomically);
+                                                   with safe_write off: stat out ; [unlink out] ;
+                                                   open(out, trunc) ; write+ ; close
+     save_results (Protocol "legacy")            : the protocol tenpy had before commit 894bf4d, kept as a
+                                                   witness configuration that TLC must refute:
+                                                   stat out ; [stat bak ; [unlink bak] ; rename out
                                                    -> bak] ; open(out, trunc) ; write+ ; close ;
                                                    stat bak ; [unlink bak]
      Crash    : enabled in every state of a live process; memory is lost, files stay
@@ -36,11 +42,14 @@ CONSTANTS Kind,         \* "dummy" | "iter" | "tevo"
           NSteps,       \* steps of the algorithm in an uninterrupted run
           MeasAtCkpt,   \* option measure_at_algorithm_checkpoints (Kind "dummy", "iter")
           MinSweeps,    \* Kind "iter": option min_sweeps (is_converged is consulted once sweeps > min_sweeps)
-          GuardStats,   \* Kind "iter": is_converged() copes with empty statistics (repo: FALSE)
+          GuardStats,   \* Kind "iter": is_converged() copes with empty statistics (the code: TRUE, since 4a7cb42;
+                        \* FALSE = witness configuration, refuted)
           TruncErr,     \* Kind "tevo": every step truncates (non-zero contribution to trunc_err)
-          SavesAcc,     \* the engine's resume data contain the accumulated error (repo: FALSE)
+          SavesAcc,     \* the engine's resume data contain the accumulated error (the code: TRUE, since 1170ece;
+                        \* FALSE = witness configuration, refuted)
           SafeWrite,    \* option safe_write
-          Protocol,     \* "repo": save_results as implemented | "replace": write bak, then rename bak -> out
+          Protocol,     \* "replace": save_results as implemented (write bak, then rename bak -> out)
+                        \* | "legacy": the protocol before 894bf4d (witness configuration, refuted)
           MaxWrites,    \* a save issues 0..MaxWrites write calls before the one that completes the data
           MaxCrashes,
           AllowRestart  \* model the restart-from-scratch of a job that has nothing to resume from
@@ -233,7 +242,10 @@ Done ==
     /\ UNCHANGED <<out, bak, mem, eng, lfc, sv, ret, saved, durable, crashes>>
 
 ----------------------------------------------------------------------------
-\* save_results as implemented (Protocol "repo")
+\* Protocol "legacy": save_results as it was before commit 894bf4d (rename out -> bak, write out, unlink
+\* bak).  Kept as the witness that AlwaysACompleteFile is not vacuous: TLC refutes it (crash during the
+\* write, resume from bak, the next save unlinks bak first).  The part from sv_stat_out / sv_unlink_out /
+\* sv_open on is also what the code does with safe_write off.
 SvStatOut ==
     /\ pc = "sv_stat_out"
     /\ last' = [op |-> "stat", f |-> "out", r |-> Exists(out)]
@@ -310,8 +322,8 @@ SvUnlinkBak2 ==
     /\ pc' = ret
     /\ UNCHANGED <<out, mem, eng, lfc, sv, ret, saved, durable, crashes>>
 
-\* proposed repair (Protocol "replace"): write the new results under the backup name (used as a
-\* temporary file), then rename(bak -> out), which replaces `out` atomically; a save counts as
+\* Protocol "replace": save_results as implemented: write the new results under the backup name (used
+\* as a temporary file), then os.replace(bak, out), which replaces `out` atomically; a save counts as
 \* completed when the rename is done
 RpOpen ==
     /\ pc = "rp_open"
